@@ -100,6 +100,18 @@ CHECKS["C17"] = dict(
     technique="TLA+ trace validation (TLC accepts recorded fault-injection runs against the spec's state machine and reference output)",
     design="3/C17")
 
+CHECKS["C15"] = dict(
+    text="spec/props/C15.tla: a catalogue of 263 Go values by fixture id with the abstract content the spec assumes; Expected(d) "
+         "states what the three coercions must return. TLC checks CoercionsAgree (the spec's own coercions meet the requirement), "
+         "KindUniform, NumStrNumIdentity, DecimalStringSpells and prints one vector per descriptor; replay calls CoerceString/"
+         "CoerceNumber/CoerceBool and {{ v }} on the real value (panic = violation). float64 -> string -> number round trips on "
+         "boundary and random bit patterns (20k quick / 1M thorough) are accepted by TLC (C15_Trace.tla) iff the bit pattern "
+         "comes back and integral values below a million print as plain integers.",
+    note="Trusted: the fixture catalogue (harness/fixtures.go) builds the Go value each id denotes; TLC has no floating point, so "
+         "the float clause is a relation over recorded bit patterns (trace acceptance), not an enumeration.",
+    technique="TLA+ spec of the coercions model-checked with TLC; generated vectors replayed; trace validation of float round trips",
+    design="3/C15")
+
 NOT_YET = {}
 
 props = [json.loads(l)["id"] for l in open(os.path.join(VERIF, "properties.jsonl"))]
